@@ -56,6 +56,7 @@ def prepare(verbose=False):
         for old in os.listdir(SCRATCH_ROOT):
             p = os.path.join(SCRATCH_ROOT, old)
             if os.path.isdir(p) and old != key and old != 'kani':
+                if _in_use(p): continue          # a check that is still running (e.g. a long thorough run) works from this build
                 try: olds.append((os.path.getmtime(p), p))
                 except OSError: pass
         olds.sort(reverse=True)
@@ -98,7 +99,33 @@ def prepare(verbose=False):
         fcntl.flock(lock, fcntl.LOCK_UN); lock.close()
 
 
+def _in_use(d):
+    try: names = os.listdir(d)
+    except OSError: return False
+    for n in names:
+        if n.startswith('inuse.'):
+            pid = n.split('.', 1)[1]
+            if pid.isdigit() and os.path.exists('/proc/' + pid): return True
+            try: os.remove(os.path.join(d, n))
+            except OSError: pass
+    return False
+
+
+def _mark_in_use(d):
+    import atexit
+    me = os.getpid()
+    marker = os.path.join(d, 'inuse.%d' % me)
+    try: open(marker, 'w').close()
+    except OSError: return
+    def _drop():
+        if os.getpid() == me:
+            try: os.remove(marker)
+            except OSError: pass
+    atexit.register(_drop)
+
+
 def info(d, key, cached):
+    _mark_in_use(d)
     return {'dir': d, 'key': key, 'cached': cached, 'mir': os.path.join(d, 'pyxis.mir'), 'json': os.path.join(d, 'pyxis.json'),
             'replay': os.path.join(d, 'verif_replay'), 'src_root': os.path.join(d, 'copy'),
             'log': json.load(open(os.path.join(d, 'done')))['log']}
